@@ -18,7 +18,10 @@ struct Ctl {
   status: Vec<Status>,
   permits: Vec<usize>,
   trace: Vec<Vec<&'static str>>,
+  at_site: Vec<&'static str>,
   free_run: bool,
+  /// park at `cached.stream_insert` too (the thread then holds the map shard locked)
+  probe: bool,
 }
 
 thread_local! {
@@ -27,9 +30,14 @@ thread_local! {
 
 type Shared = Arc<(Mutex<Ctl>, Condvar)>;
 
-/// sites at which threads park (the two points inside CachedSource's critical section are passed through)
-fn parks(site: &str) -> bool {
-  !matches!(site, "cached.stream_locked" | "cached.stream_insert")
+/// sites at which threads park: the two points inside CachedSource's critical section are passed
+/// through, except that in probe mode a thread also parks before the insert (holding the shard lock)
+fn parks(site: &str, probe: bool) -> bool {
+  match site {
+    "cached.stream_locked" => false,
+    "cached.stream_insert" => probe,
+    _ => true,
+  }
 }
 
 fn install(shared: Shared) {
@@ -38,16 +46,17 @@ fn install(shared: Shared) {
       Some(t) => t,
       None => return,
     };
-    if !parks(site) {
-      return;
-    }
     let (m, cv) = &*shared;
     let mut g = m.lock().unwrap();
+    if !parks(site, g.probe) {
+      return;
+    }
     if g.free_run {
       g.trace[tid].push(site);
       return;
     }
     g.status[tid] = Status::Parked;
+    g.at_site[tid] = site;
     cv.notify_all();
     while g.permits[tid] == 0 && !g.free_run {
       g = cv.wait(g).unwrap();
@@ -71,6 +80,7 @@ fn site_num(s: &str) -> u32 {
     "cached.map_get" => 0,
     "cached.map_insert" => 1,
     "cached.stream_entry" => 2,
+    "cached.stream_insert" => 3,
     "start" => 9,
     _ => 8,
   }
@@ -81,11 +91,19 @@ fn site_num(s: &str) -> u32 {
 fn run_threads(
   bodies: Vec<Box<dyn FnOnce() + Send>>,
   schedule: &[usize],
+  probe: bool,
   mut after_step: impl FnMut(),
 ) -> Vec<Vec<u32>> {
   let n = bodies.len();
   let shared: Shared = Arc::new((
-    Mutex::new(Ctl { status: vec![Status::Running; n], permits: vec![0; n], trace: vec![Vec::new(); n], free_run: false }),
+    Mutex::new(Ctl {
+      status: vec![Status::Running; n],
+      permits: vec![0; n],
+      trace: vec![Vec::new(); n],
+      at_site: vec![""; n],
+      free_run: false,
+      probe,
+    }),
     Condvar::new(),
   ));
   install(shared.clone());
@@ -115,15 +133,19 @@ fn run_threads(
       g = cv.wait(g).unwrap();
     }
   }
-  let wait_settled = |tid: usize| {
+  // waits until the thread is parked or done; false if it is still running after `ticks` x 5 ms
+  let wait_settled = |tid: usize, ticks: u32| -> bool {
     let mut g = m.lock().unwrap();
     let mut waited = 0;
-    while g.status[tid] == Status::Running && waited < 400 {
+    while g.status[tid] == Status::Running && waited < ticks {
       let (g2, _) = cv.wait_timeout(g, Duration::from_millis(5)).unwrap();
       g = g2;
       waited += 1;
     }
+    g.status[tid] != Status::Running
   };
+  const LONG: u32 = 400;
+  const SHORT: u32 = 12;
   for tid in 0..n {
     {
       let mut g = m.lock().unwrap();
@@ -131,40 +153,66 @@ fn run_threads(
       g.status[tid] = Status::Running;
       cv.notify_all();
     }
-    wait_settled(tid);
+    wait_settled(tid, LONG);
   }
+  // the thread parked before the insert of the stream fill path holds the shard lock
+  let holder = || -> Option<usize> {
+    let g = m.lock().unwrap();
+    (0..n).find(|&i| g.status[i] == Status::Parked && g.at_site[i] == "cached.stream_insert")
+  };
+  // at most one thread is blocked on that lock at a time; while one is, only the holder is granted
+  let mut blocked: Option<usize> = None;
+  let mut step = |tid: usize, blocked: &mut Option<usize>| {
+    let h = holder();
+    {
+      let mut g = m.lock().unwrap();
+      if g.status[tid] != Status::Parked {
+        return;
+      }
+      if blocked.is_some() && h != Some(tid) {
+        return;
+      }
+      g.permits[tid] += 1;
+      g.status[tid] = Status::Running;
+      cv.notify_all();
+    }
+    match h {
+      Some(hh) if hh != tid => {
+        // the access should meet the held lock: it is blocked unless it settles soon
+        if !wait_settled(tid, SHORT) {
+          *blocked = Some(tid);
+        }
+      }
+      _ => {
+        wait_settled(tid, LONG);
+        if h == Some(tid) {
+          if let Some(b) = blocked.take() {
+            wait_settled(b, LONG);
+          }
+        }
+      }
+    }
+  };
   for &tid in schedule {
     if tid >= n {
       continue;
     }
-    {
-      let mut g = m.lock().unwrap();
-      if g.status[tid] != Status::Parked {
-        continue;
-      }
-      g.permits[tid] += 1;
-      g.status[tid] = Status::Running;
-      cv.notify_all();
-    }
-    wait_settled(tid);
+    step(tid, &mut blocked);
     after_step();
   }
   // finish thread by thread, in order
   for tid in 0..n {
+    let mut rounds = 0;
     loop {
-      {
-        let mut g = m.lock().unwrap();
-        match g.status[tid] {
-          Status::Done => break,
-          Status::Parked => {
-            g.permits[tid] += 1;
-            g.status[tid] = Status::Running;
-            cv.notify_all();
-          }
-          Status::Running => {}
-        }
+      if m.lock().unwrap().status[tid] == Status::Done || rounds > 200 {
+        break;
       }
-      wait_settled(tid);
+      rounds += 1;
+      let who = match (blocked, holder()) {
+        (Some(_), Some(h)) => h,
+        _ => tid,
+      };
+      step(who, &mut blocked);
       after_step();
     }
   }
@@ -203,7 +251,8 @@ fn join_usize(v: &[usize]) -> String {
 pub fn sched_case(t: &mut Toks) -> String {
   match t.next() {
     "R" => sched_replace(t),
-    "C" => sched_cached(t),
+    "C" => sched_cached(t, false),
+    "L" => sched_cached(t, true),
     k => panic!("sched kind {}", k),
   }
 }
@@ -263,7 +312,7 @@ fn sched_replace(t: &mut Toks) -> String {
       }
     }));
   }
-  let traces = run_threads(bodies, &schedule, || {});
+  let traces = run_threads(bodies, &schedule, false, || {});
   let (flag, index) = obj.verif_sorted_state();
   let res = results.lock().unwrap();
   let mut out = Vec::new();
@@ -282,7 +331,7 @@ fn key_opts(k: u64) -> MapOptions {
   MapOptions::verif_with_final_source(k == 0 || k == 2, k >= 2)
 }
 
-fn sched_cached(t: &mut Toks) -> String {
+fn sched_cached(t: &mut Toks, probe: bool) -> String {
   let mut ctx = Ctx::default();
   let inner: BoxSource = build(t, &mut ctx).boxed();
   let obj = Arc::new(CachedSource::new(inner));
@@ -322,9 +371,13 @@ fn sched_cached(t: &mut Toks) -> String {
   let hist: Arc<Mutex<Vec<Vec<Option<usize>>>>> = Arc::new(Mutex::new(Vec::new()));
   let obj2 = obj.clone();
   let hist2 = hist.clone();
-  let traces = run_threads(bodies, &schedule, move || {
-    let snap: Vec<Option<usize>> = (0..4).map(|k| obj2.verif_cache_entry_addr(&key_opts(k))).collect();
-    hist2.lock().unwrap().push(snap);
+  let traces = run_threads(bodies, &schedule, probe, move || {
+    // no snapshot while a fill path holds a shard locked
+    let snap: Result<Vec<Option<usize>>, ()> =
+      (0..4).map(|k| obj2.verif_cache_entry_addr_try(&key_opts(k))).collect();
+    if let Ok(snap) = snap {
+      hist2.lock().unwrap().push(snap);
+    }
   });
   // canonical ids for addresses, by first appearance
   let mut ids: Vec<usize> = Vec::new();
